@@ -1930,8 +1930,12 @@ def sequence_to_pianoroll(
                     min_pitch] = note.velocity / max_velocity
     roll_weights[onset_start_frame:onset_end_frame, note.pitch - min_pitch] = (
         onset_upweight)
-    roll_weights[onset_end_frame:end_frame, note.pitch - min_pitch] = [
-        onset_upweight / x for x in range(1, end_frame - onset_end_frame + 1)
+    # The roll may end before end_frame (the slice below is clipped to it), so
+    # clip the list of decaying weights to the same length.
+    weights_end_frame = min(end_frame, roll_weights.shape[0])
+    roll_weights[onset_end_frame:weights_end_frame, note.pitch - min_pitch] = [
+        onset_upweight / x
+        for x in range(1, weights_end_frame - onset_end_frame + 1)
     ]
 
     if add_blank_frame_before_onset:
